@@ -2,7 +2,7 @@
 import itertools
 from codec_common import *
 
-GEN = ["EstructParams", "Cp037"]
+GEN = ["EstructParams", "Cp037", "TextCodec"]
 RULE = ("round trips: the runner writes the mainframe encoding of (digits, sign) / an integer / bytes, the judge first checks the bytes ARE "
         "the specification's encoding (Spec/Encode.v), then compares the implementation's result with the stored value and with the model. "
         "Streams: all valid 1-2 byte packed buffers, all 1-2 byte zoned buffers, all 65536 halfwords, all 256 text bytes (exhaustive); every (m,n) with "
